@@ -981,6 +981,35 @@ impl<'a> Gen<'a> {
             if self.cfg.is(Dialect::Postgres) && !self.cfg.exec && self.rng.chance(1, 3) {
                 w.cycle = Some(("n".into(), "is_cycle".into(), "path".into()));
             }
+        } else if !self.cfg.exec && self.cfg.is(Dialect::Postgres) && self.rng.chance(1, 4) {
+            // data-modifying CTE (Postgres): DELETE / UPDATE / INSERT .. RETURNING <key> as the body
+            let name = self.fresh("c");
+            let saved = std::mem::take(&mut self.ctes);
+            let (body, key) = match self.rng.below(3) {
+                0 => {
+                    let mut d = self.delete(0);
+                    d.with = None;
+                    let key = base_tables().into_iter().find(|t| t.name == d.table).map(|t| t.key[0].clone()).unwrap_or_else(|| "id".into());
+                    d.returning = Some(Returning::Cols(vec![key.clone()]));
+                    (CteBody::Del(d), key)
+                }
+                1 => {
+                    let mut u = self.update(0);
+                    u.with = None;
+                    let key = base_tables().into_iter().find(|t| t.name == u.table).map(|t| t.key[0].clone()).unwrap_or_else(|| "id".into());
+                    u.returning = Some(Returning::Cols(vec![key.clone()]));
+                    (CteBody::Upd(u), key)
+                }
+                _ => {
+                    let mut i = self.insert(0);
+                    i.with = None;
+                    i.returning = Some(Returning::Cols(vec!["k".into()]));
+                    (CteBody::Ins(i), "k".to_string())
+                }
+            };
+            self.ctes = saved;
+            w.ctes.push(Cte { name: name.clone(), cols: vec![], infer: false, body: Box::new(body), materialized: None });
+            self.ctes.push(Rel { name, cols: vec![(key, K::I)], key: vec![] });
         } else {
             let n = 1 + self.rng.below(2);
             for _ in 0..n {
